@@ -163,6 +163,18 @@ func (k *KWorld) Destroy() {
 			k.awaitReaderExit()
 		}
 	}
+	if k.w != nil {
+		select {
+		case <-k.col.done:
+		default:
+			// a reader that is still there must not outlive this world
+			unix.KillReaders()
+			select {
+			case <-k.col.done:
+			case <-time.After(2 * time.Second):
+			}
+		}
+	}
 	unix.Reset()
 	os.Chdir(k.oldCwd)
 	os.RemoveAll(k.root)
